@@ -1,10 +1,11 @@
 #!/bin/bash
 # Offline setup: builds both harness binaries (plain and -race) against /repo so
-# that later ./check invocations hit a warm build cache, and runs the oracle self-tests.
+# that later ./check invocations hit a warm build cache, and runs the harness self-tests.
 set -e
 cd "$(dirname "$0")"
 export GOFLAGS=-mod=mod GOPROXY=off GOSUMDB=off GOTOOLCHAIN=local
 mkdir -p .build evidence/replays
 (cd harness && go build -tags verif -o ../.build/vh ./cmd/vh && go build -tags verif -race -o ../.build/vh-race ./cmd/vh)
-(cd harness && go test -tags verif -count=1 ./wsproxy/... ./core/... ./oracle/... 2>&1 | tail -5)
+(cd harness && go test -tags verif -count=1 ./... 2>&1 | tail -8)
+./.build/vh list
 echo setup ok
